@@ -71,7 +71,10 @@ def collect_models(repo: Repo) -> Dict[str, Model]:
     for ci in classes:
         name = ci.name
         if name in models:
-            continue
+            # a second class of the same name in another module is a different model: keep both
+            name = f"{ci.name}@{ci.module.name}"
+            if name in models:
+                continue
         if "McpPydanticBase" in repo.base_names(ci) and name != "McpPydanticBase":
             m = Model(ci)
             for c in reversed(repo.mro(ci)):
@@ -281,6 +284,12 @@ class C10(Check):
         bad_extra = sorted(n for n, m in models.items() if {**base, **m.config}.get("extra") != "allow")
         out.append(("C10.models.unknown_members_are_kept_on_every_model[extra=allow effective]", not bad_extra,
                     f"{len(models)} models; not 'allow': {bad_extra[:8]}"))
+        # no model may switch on a configuration option that REWRITES member values on validation (a lossless view
+        # keeps every spec-valid value exactly as the wire carried it)
+        rewriting = ("str_strip_whitespace", "str_to_lower", "str_to_upper", "coerce_numbers_to_str", "ser_json_inf_nan",
+                     "use_enum_values", "anystr_strip_whitespace", "anystr_lower", "anystr_upper")
+        bad_rw = sorted(f"{n}.{k}" for n, m in models.items() for k in rewriting if {**base, **m.config}.get(k))
+        out.append(("C10.models.no_value_rewriting_configuration_option", not bad_rw, f"options set: {bad_rw}"))
         bad_pop = sorted(n for n, m in models.items() if m.aliases and not {**base, **m.config}.get("populate_by_name"))
         out.append(("C10.models.aliased_models_can_be_populated_by_field_name", not bad_pop, f"missing: {bad_pop}"))
         hooks = sorted({h for m in models.values() for h in m.hooks})
@@ -329,98 +338,222 @@ class C10(Check):
 
 
 def roundtrip_audit(tier):
-    """validate -> dump(by_alias, exclude_none) identity on the REAL classes of the tree under verification, one
-    type-directed wire instance per discovered model (every alias populated, unknown members incl. an underscore-prefixed
-    one, explicit nulls nested inside object-valued members), under BOTH backends (the fallback in a subprocess with
-    MCP_FORCE_FALLBACK=1).  Bounded: one instance per model and backend; a failing instance is a real failing run."""
+    """validate -> dump(by_alias, exclude_none) identity on the REAL classes of the tree under verification: type-directed
+    wire instances per model (nested models populated, one variant per arm of a union of model classes, every alias,
+    unknown members incl. an underscore-prefixed one, explicit nulls nested inside object-valued members), under BOTH
+    backends and in BOTH orders of the model list, each in a fresh process; a wire instance that is accepted in one order
+    and rejected in the other shows validation depending on history.  Bounded; a failing instance is a real failing run."""
     import json as _json
     import subprocess
     import sys
-    r = roundtrip_native()
-    results = {"pydantic" if r.get("backend_is_pydantic") else "fallback": r}
-    if r.get("failure") is None:
-        src = os.path.join(os.environ.get("VERIF_REPO", "/repo"), "src")
-        code = ("import sys, json; sys.path[:0] = [%r, %r]; from checks.C10 import roundtrip_native; "
-                "print('RESULT ' + json.dumps(roundtrip_native(), default=str))" % (src, os.path.dirname(os.path.dirname(os.path.abspath(__file__)))))
-        env = dict(os.environ, MCP_FORCE_FALLBACK="1", VERIF_REPO=os.environ.get("VERIF_REPO", "/repo"))
-        try:
-            out = subprocess.run([sys.executable, "-c", code], env=env, capture_output=True, text=True, timeout=300).stdout
-            line = [l for l in out.splitlines() if l.startswith("RESULT ")]
-            if line:
-                r2 = _json.loads(line[-1][7:])
-                results["pydantic" if r2.get("backend_is_pydantic") else "fallback"] = r2
-        except Exception:      # noqa: BLE001 - the second backend could not be exercised: said in the bound
-            pass
+    src = os.path.join(os.environ.get("VERIF_REPO", "/repo"), "src")
+    verif = os.path.dirname(os.path.dirname(os.path.abspath(__file__)))
+    results = {}
+    for backend, force in (("pydantic", "0"), ("fallback", "1")):
+        for order in ("forward", "reverse"):
+            code = ("import sys, json; sys.path[:0] = [%r, %r]; from checks.C10 import roundtrip_native; "
+                    "print('RESULT ' + json.dumps(roundtrip_native(%r), default=str))" % (src, verif, order))
+            env = dict(os.environ, VERIF_REPO=os.environ.get("VERIF_REPO", "/repo"))
+            if force == "1":
+                env["MCP_FORCE_FALLBACK"] = "1"
+            else:
+                env.pop("MCP_FORCE_FALLBACK", None)
+            try:
+                out = subprocess.run([sys.executable, "-c", code], env=env, capture_output=True, text=True, timeout=300).stdout
+                line = [l for l in out.splitlines() if l.startswith("RESULT ")]
+                if line:
+                    r = _json.loads(line[-1][7:])
+                    results[("pydantic" if r.get("backend_is_pydantic") else "fallback", order)] = r
+            except Exception:      # noqa: BLE001
+                pass
     n = sum(x.get("cases", 0) for x in results.values())
-    for backend, x in results.items():
+    name = "validate->dump identity per model"
+    for (backend, order), x in sorted(results.items()):
         f = x.get("failure")
         if f:
-            return AuditResult("validate->dump identity per model", False, n, f"[{backend}] {f['model']}: member {f['member']!r} {f['sent']!r} became {f['got']!r}",
+            return AuditResult(name, False, n, f"[{backend}] {f['model']}: member {f['member']!r} {f['sent']!r} became {f['got']!r}",
                                violation=dict(input=dict(backend=backend, model=f["model"], wire=f["wire"]),
                                               observed=f"after validate -> dump(by_alias=True, exclude_none=True): member {f['member']!r} is {f['got']!r}",
                                               required=f"member {f['member']!r} == {f['sent']!r} (typed models are lossless views of the wire)"))
-    return AuditResult("validate->dump identity per model", True, n,
-                       bound="one generated wire instance per model: " + ", ".join(f"{b}: {x.get('cases', 0)} models ({x.get('skipped', 0)} skipped)"
-                                                                                  for b, x in sorted(results.items())))
+    for backend in ("pydantic", "fallback"):
+        a, b = results.get((backend, "forward")), results.get((backend, "reverse"))
+        if a and b:
+            for key, st in sorted(a.get("outcomes", {}).items()):
+                if b.get("outcomes", {}).get(key, st) != st:
+                    return AuditResult(name, False, n, f"[{backend}] {key}: {st} in forward order, {b['outcomes'][key]} in reverse order",
+                                       violation=dict(input=dict(backend=backend, model=key, history="the same wire instance validated after "
+                                                                 "the other models of the package, in forward vs reverse order (fresh process each)"),
+                                                      observed=f"{st} in one order, {b['outcomes'][key]} in the other",
+                                                      required="validation of a wire object does not depend on which models were validated before"))
+    return AuditResult(name, True, n, bound="wire instances per model (main + one per further union arm), fresh process per backend and order: "
+                       + ", ".join(f"{b}/{o}: {x.get('cases', 0)} accepted, {x.get('skipped', 0)} not generated or rejected" for (b, o), x in sorted(results.items())))
 
 
-def roundtrip_native():
+def _native_model_classes(repo):
+    """every McpPydanticBase subclass of the package, by (module, name) - same-named classes of different modules are
+    different models - imported from the tree under verification"""
     import importlib
-    import logging
-    logging.disable(logging.CRITICAL)
-    repo = Repo()
-    models = collect_models(repo)
     base = importlib.import_module("chuk_mcp.protocol.mcp_pydantic_base")
-    n, skipped = 0, 0
-    for name, m in sorted(models.items()):
-        modname = m.ci.module.name
+    out = []
+    for rel in repo.all_package_files():
+        if not rel.endswith(".py") or "/transports/" in rel or "/mcp_client/" in rel:
+            continue
+        mod = rel[len("src/"):-3].replace("/", ".")
+        if mod.endswith(".__init__"):
+            mod = mod[:-9]
         try:
-            cls = getattr(importlib.import_module(modname), name)
+            m = importlib.import_module(mod)
         except Exception:      # noqa: BLE001
-            skipped += 1
             continue
-        fields = getattr(cls, "model_fields", None) or getattr(cls, "__model_fields__", None)
-        if not fields:
-            skipped += 1
-            continue
+        for name, cls in sorted(vars(m).items()):
+            if isinstance(cls, type) and getattr(cls, "__module__", None) == mod and cls is not base.McpPydanticBase \
+                    and issubclass(cls, base.McpPydanticBase):
+                out.append((mod, name, cls))
+    return base, out
+
+
+def _fields_of(cls):
+    return getattr(cls, "model_fields", None) or getattr(cls, "__model_fields__", None) or {}
+
+
+_HINTS = {}
+
+
+def _annotation_of(cls, fname, f):
+    ann = getattr(f, "annotation", None)
+    if ann is not None:
+        return ann
+    if cls not in _HINTS:
+        import typing
+        try:
+            _HINTS[cls] = typing.get_type_hints(cls)
+        except Exception:      # noqa: BLE001
+            _HINTS[cls] = dict(getattr(cls, "__annotations__", {}))
+    return _HINTS[cls].get(fname)
+
+
+def _wire_instances(cls, limit=6):
+    """type-directed wire instances of a model: the main one (first arm of every union) and, for every field whose type
+    mentions several model classes (content-block unions), one variant per further arm (bounded by `limit`)"""
+    import typing
+    fields = _fields_of(cls)
+    if not fields:
+        return []
+
+    def build(choice=None):
         wire = {}
-        ok = True
         for fname, f in fields.items():
             key = getattr(f, "alias", None) or fname
-            ann = getattr(f, "annotation", None)
-            v = sample_for(ann)
+            ann = _annotation_of(cls, fname, f)
+            v = sample_for(ann, 0, choice if (choice and choice[0] == fname) else None)
             if v is NOSAMPLE:
                 req = f.is_required() if hasattr(f, "is_required") else getattr(f, "required", False)
                 if req:
-                    ok = False
-                    break
+                    return None
                 continue
-            if isinstance(v, dict):
+            if isinstance(v, dict) and "type" not in v:
                 v = dict(v, nested={"explicit_null": None, "deeper": {"n": None, "k": [None, 1]}})
             wire[key] = v
-        if not ok:
-            skipped += 1
-            continue
         wire["x-unknown"] = {"a": [1, None], "n": None, "o": {"m": None}}
         wire["_vendorExt"] = "keep"
-        try:
-            obj = cls.model_validate(wire)
-        except Exception:      # noqa: BLE001
-            skipped += 1
-            continue
-        n += 1
-        back = obj.model_dump(by_alias=True, exclude_none=True)
-        for k, v in wire.items():
-            if k not in back or back[k] != v:
-                return dict(backend_is_pydantic=bool(getattr(base, "PYDANTIC_AVAILABLE", False)), cases=n, skipped=skipped,
-                            failure=dict(model=f"{modname}.{name}", member=k, sent=v, got=back.get(k, "<absent>"), wire=wire))
-    return dict(backend_is_pydantic=bool(getattr(base, "PYDANTIC_AVAILABLE", False)), cases=n, skipped=skipped, failure=None)
+        return wire
+    def build_only(keep):
+        """required fields plus the optional fields in `keep` (models whose own validators forbid some combinations of
+        optional members - e.g. result together with error - are still exercised member by member)"""
+        wire = {}
+        for fname, f in fields.items():
+            req = f.is_required() if hasattr(f, "is_required") else getattr(f, "required", False)
+            if not req and fname not in keep:
+                continue
+            v = sample_for(_annotation_of(cls, fname, f), 0)
+            if v is NOSAMPLE:
+                if req:
+                    return None
+                continue
+            if isinstance(v, dict) and "type" not in v:
+                v = dict(v, nested={"explicit_null": None, "deeper": {"n": None, "k": [None, 1]}})
+            wire[getattr(f, "alias", None) or fname] = v
+        wire["x-unknown"] = {"a": [1, None], "n": None, "o": {"m": None}}
+        return wire
+    out = []
+    main = build()
+    if main is not None:
+        out.append(("main", main))
+    for fname, f in list(fields.items())[:12]:
+        req = f.is_required() if hasattr(f, "is_required") else getattr(f, "required", False)
+        if not req:
+            w = build_only({fname})
+            if w is not None:
+                out.append((f"required+{fname}", w))
+    n = 0
+    for fname, f in fields.items():
+        arms = model_arms(_annotation_of(cls, fname, f))
+        for k in range(1, len(arms)):
+            if n >= limit:
+                break
+            w = build((fname, k))
+            if w is not None:
+                out.append((f"{fname}:arm{k}", w))
+                n += 1
+    return out
+
+
+def roundtrip_native(order="forward"):
+    import logging
+    logging.disable(logging.CRITICAL)
+    repo = Repo()
+    base, classes = _native_model_classes(repo)
+    is_pyd = bool(getattr(base, "PYDANTIC_AVAILABLE", False))
+    n, skipped = 0, 0
+    outcomes = {}
+    seq = classes if order == "forward" else list(reversed(classes))
+    for mod, name, cls in seq:
+        for label, wire in _wire_instances(cls):
+            key = f"{mod}.{name} [{label}]"
+            try:
+                obj = cls.model_validate(wire)
+            except Exception as ex:      # noqa: BLE001
+                outcomes[key] = f"rejected ({type(ex).__name__})"
+                skipped += 1
+                continue
+            outcomes[key] = "accepted"
+            n += 1
+            back = obj.model_dump(by_alias=True, exclude_none=True)
+            for k, v in wire.items():
+                if k not in back or back[k] != v:
+                    return dict(backend_is_pydantic=is_pyd, cases=n, skipped=skipped, outcomes=outcomes,
+                                failure=dict(model=f"{key} ({order} order)", member=k, sent=v, got=back.get(k, "<absent>"), wire=wire))
+    return dict(backend_is_pydantic=is_pyd, cases=n, skipped=skipped, outcomes=outcomes, failure=None)
 
 
 NOSAMPLE = object()
 
 
-def sample_for(ann, depth=0):
+def _is_model(t):
+    return isinstance(t, type) and hasattr(t, "model_validate") and bool(_fields_of(t))
+
+
+def model_arms(ann):
+    """the model classes mentioned in an annotation (through Optional / Union / List / Annotated), in order"""
+    import typing
+    out = []
+
+    def walk(a, depth=0):
+        if depth > 4 or a is None:
+            return
+        if _is_model(a):
+            if a not in out:
+                out.append(a)
+            return
+        for x in typing.get_args(a):
+            walk(x, depth + 1)
+    walk(ann)
+    return out
+
+
+def sample_for(ann, depth=0, choice=None):
+    """a JSON value of the annotated type; `choice` = (field, k) selects the k-th model class mentioned in the annotation
+    instead of the first one"""
     import typing
     origin = typing.get_origin(ann)
     args = typing.get_args(ann)
@@ -434,21 +567,45 @@ def sample_for(ann, depth=0):
         return True
     if ann is typing.Any:
         return {"any": None}
+    if _is_model(ann):
+        if depth > 2:
+            return NOSAMPLE
+        wire = {}
+        for fname, f in _fields_of(ann).items():
+            key = getattr(f, "alias", None) or fname
+            v = sample_for(_annotation_of(ann, fname, f), depth + 1)
+            if v is NOSAMPLE:
+                req = f.is_required() if hasattr(f, "is_required") else getattr(f, "required", False)
+                if req:
+                    return NOSAMPLE
+                continue
+            wire[key] = v
+        return wire
     if origin is typing.Literal:
         return args[0]
-    if origin is typing.Union:
-        for a in args:
-            if a is type(None):
-                continue
-            v = sample_for(a, depth + 1)
+    if origin is typing.Union or str(origin) == "types.UnionType":
+        arms = [a for a in args if a is not type(None)]
+        if choice is not None:
+            wanted = model_arms(ann)
+            if choice[1] < len(wanted):
+                target = wanted[choice[1]]
+                for a in arms:
+                    if a is target or target in model_arms(a):
+                        v = sample_for(a, depth, choice)
+                        if v is not NOSAMPLE:
+                            return v
+        for a in arms:
+            v = sample_for(a, depth)
             if v is not NOSAMPLE:
                 return v
         return NOSAMPLE
     if origin in (dict, typing.Dict):
         return {"k": "v"}
     if origin in (list, typing.List):
-        v = sample_for(args[0], depth + 1) if args else "x"
+        v = sample_for(args[0], depth, choice) if args else "x"
         return [v] if v is not NOSAMPLE else []
+    if getattr(typing, "Annotated", None) is not None and origin is typing.Annotated:
+        return sample_for(args[0], depth, choice)
     if ann is dict:
         return {"k": 1}
     if ann is list:
